@@ -506,6 +506,66 @@ def parse_output(text):
 
 # ---------------------------------------------------------------------------- the check
 
+def zero_size_globals(chk):
+    """One entity, one symbol - for package-level variables of size zero, whose symbols llgo handles apart from the others:
+    packages whose import paths are string prefixes of one another (a sub-package and a prefix sibling) each declare
+    zero-size variables and refer to the others'; the program must link (no symbol defined twice) and every reference to
+    one variable must yield the same address.  Fixed program, end to end."""
+    d = os.path.join(chk.rd.path, "zsg")
+    lib = ("package %s\n\nvar Marker struct{}\nvar Arr [0]int\nvar Pair struct{ A struct{}; B [0]string }\n\n"
+           "func AddrMarker() *struct{} { return &Marker }\nfunc AddrArr() *[0]int { return &Arr }\n")
+    files = {"go.mod": "module zsg\n\ngo 1.24\n",
+             "lib/lib.go": lib % "lib",
+             "libx/libx.go": lib % "libx",
+             "lib/sub/sub.go": lib % "sub",
+             "main.go": """package main
+
+import (
+	"zsg/lib"
+	"zsg/lib/sub"
+	"zsg/libx"
+)
+
+var Marker struct{}
+
+func main() {
+	println("Z", "lib", &lib.Marker == lib.AddrMarker(), &lib.Arr == lib.AddrArr())
+	println("Z", "sub", &sub.Marker == sub.AddrMarker(), &sub.Arr == sub.AddrArr())
+	println("Z", "libx", &libx.Marker == libx.AddrMarker(), &libx.Arr == libx.AddrArr())
+	m := map[*struct{}]int{}
+	m[&lib.Marker]++
+	m[lib.AddrMarker()]++
+	m[&Marker]++
+	println("Z", "map", m[&lib.Marker], len(lib.Pair.B), len(sub.Pair.B), len(libx.Pair.B))
+}
+"""}
+    C.write_module(d, files, modname="zsg")
+    want = ["Z lib true true", "Z sub true true", "Z libx true true"]
+    ref = os.path.join(d, "ref.exe")
+    ok, out = C.go_build(d, ref)
+    if not ok:
+        raise C.Undecided("reference toolchain rejects the zero-size-globals program:\n" + out[-1500:])
+    st, so, se = C.run_exe(ref, timeout=60, merge=True)
+    if [l for l in so.splitlines() if l.startswith("Z ")][:3] != want:
+        raise C.Undecided("zero-size-globals program: the reference toolchain prints %r" % so)
+    exe = os.path.join(d, "llgo.exe")
+    ok, out = C.llgo_build(d, exe, opt="O0", rundir=d)
+    if not ok:
+        m = re.findall(r"multiple definition of `([^']+)'", out)
+        if m:
+            chk.reject("e2e-link:multidef:zero-size-global", "a package-level variable of size zero is defined by more than one package "
+                       "(import paths that are prefixes of one another): the program does not link: multiple definition of %s" % sorted(set(m))[:4],
+                       {"symbols": sorted(set(m)), "packages": ["zsg/lib", "zsg/lib/sub", "zsg/libx", "zsg (main)"], "linker": out[-1500:]})
+            return {"linked": False}
+        raise C.Undecided("llgo cannot build the zero-size-globals program:\n" + out[-2500:])
+    st, so, se = C.run_exe(exe, timeout=60, merge=True)
+    got = [l for l in so.splitlines() if l.startswith("Z ")]
+    if got[:3] != want:
+        chk.reject("e2e:zero-size-global:address", "two references to one zero-size package-level variable yield different addresses: %r" % got,
+                   {"got": got, "want": want})
+    return {"linked": True, "lines": got}
+
+
 def check(chk):
     thorough = chk.tier == "thorough"
     sd = C.seed()
@@ -579,6 +639,7 @@ def check(chk):
         chk.reject(key, describe(key, ds), {"count": len(ds), "examples": ds[:6]})
     if stats["e2e_died"]:
         chk.cov["e2e_died"] = stats["e2e_died"]
+    stats["zero_size_globals"] = zero_size_globals(chk)
     n_obs = len(judge.records) - len(neg_ids)
     chk.cov["evaluations"] = n_obs
     chk.cov["traces_validated_against_impl"] = stats["inproc_names"] + stats["e2e_refs"]
